@@ -686,3 +686,30 @@ def suite_traces(name="suite"):
     with open(out) as f:
         d = json.load(f)
     return d["traces"], d["stats"]
+
+
+# --------------------------------------------------------------------------
+# implementation-shaped layer (GfaImpl.tla): refinement of Gfa.tla, cascade one step at a time
+
+IMPL_LINES = ["S|a|4|*", "S|b|6|*", "E|e1|a+|b+|2|4$|0|2|*", "E|e2|a+|b+|1|4$|0|3|*",
+              "E|*|a+|b-|0|1|3|6$|*", "U|u|a e1", "U|v|u b"]
+
+
+def mc_impl(depth, snapshot=True, name="impl"):
+    """returns (ok, (generated, distinct), violated invariant or None)"""
+    wd = workdir(name)
+    cf = os.path.join(wd, "cat.json")
+    with open(cf, "w") as f:
+        json.dump({"pool": [abstract_input(text_of(l)) for l in IMPL_LINES], "maxobjs": 9, "depth": depth}, f)
+    cfg = ("SPECIFICATION Spec\nCONSTANTS\n  Catalogue <- MCCatalogue\n  MaxObjs <- MCMaxObjs\n  MaxOps <- MCMaxOps\n"
+           "  SnapshotCascade = %s\nINVARIANT Refines\nINVARIANT Closed\nINVARIANT Symmetric\n"
+           "INVARIANT PlaceholdersExact\nCHECK_DEADLOCK FALSE\n" % ("TRUE" if snapshot else "FALSE"))
+    rc, out = run_tlc("MC_GfaImpl", cfg, wd, env={"CATALOG_FILE": cf}, workers=NCPU, heap="6g")
+    st = stats(out)
+    import re
+    m = re.search(r"Invariant (\w+) is violated", out)
+    if rc == 0 and "No error has been found" in out:
+        return True, st, None
+    if m:
+        return False, st, m.group(1)
+    raise MachineryError("MC_GfaImpl failed:\n" + "\n".join(out.splitlines()[-30:]))
